@@ -130,7 +130,7 @@ def load_known():
 # (equivalent) shape it may not recognise the construct or may mis-read it.  Its verdict therefore counts only when the
 # deciding rule does not hold either: if the deciding rule evaluates the current source and finds the behaviour right,
 # reports and "not recognised" errors of the diagnostic rule are downgraded to notes.
-DIAGNOSTIC = {"F1": "FM", "F4": "FM", "G4": "R14", "R08": "R14", "R11u": "R14", "A1": "AM", "A2": "AM", "A3": "AM", "A4": "AM", "A5": "AM", "A6": "AM", "A7": "AM", "L3": ("L1", "L2"), "D1": "DG", "D2s": "DG", "D4": "DG", "G3": "G3e", "M1": ("L1", "L2", "PS"), "R10": ("R10e", "L2", "R12"), "H2": "HV", "H5": "HV", "H6": "HV", "H7": "HV", "G5h": "HV", "R10r": "SV", "J1": "JD", "K4": "K4e", "H4": ("HV", "JD", "H4e"), "GR": "AM", "G5": ("SV", "HV", "R13", "R14", "R11a"), "R11": ("R13", "R14", "G3e", "SV"), "G1": ("RV", "G1b", "SV"), "M1h": "HV", "K1": "K1e"}
+DIAGNOSTIC = {"F1": "FM", "F4": "FM", "G4": "R14", "R08": "R14", "R11u": "R14", "A1": "AM", "A2": "AM", "A3": "AM", "A4": "AM", "A5": "AM", "A6": "AM", "A7": "AM", "L3": ("L1", "L2"), "D1": "DG", "D2s": "DG", "D4": "DG", "G3": "G3e", "M1": ("L1", "L2", "PS"), "R10": ("R10e", "L2", "R12"), "H2": "HV", "H5": "HV", "H6": "HV", "H7": "HV", "G5h": "HV", "R10r": "SV", "J1": "JD", "K4": "K4e", "H4": ("HV", "JD", "H4e"), "GR": "AM", "G5": ("SV", "HV", "R13", "R14", "R11a"), "R11": ("R13", "R14", "G3e", "SV"), "G1": ("RV", "G1b", "SV"), "M1h": "HV", "K1": "K1e", "S11t": "S11e"}
 _decided_cache = {}
 
 
